@@ -128,8 +128,34 @@ func runOptsSeq(x *C16Case, defaults, callOpts []OptEntry, nilAt int, followUp b
 		cargs = append(cargs, nil)
 	}
 	cargs = append(cargs, engine.Quiet())
+	// the slice NewFunc was given belongs to the caller, spare capacity
+	// included: the caller extends its list by one more value and will make a
+	// sibling function from the longer list. Nothing a Call of f does may
+	// show up in there.
+	probeIn := engine.Input{L: engine.Label{Name: "probe", Type: 5, Dyn: 5}, Tok: 9999}
+	var longer []argmapper.Arg
+	if followUp && w.LastOpts != nil && cap(w.LastOpts) > len(w.LastOpts) {
+		w.RegisterInput(probeIn)
+		longer = append(w.LastOpts, engine.InputArg(probeIn))
+	}
 	o := w.Call(f, cargs)
 	got := tokensOf(o)
+	if longer != nil && o.Panic == "" {
+		sib, serr := argmapper.NewFunc(w.MakeGoFunc(&engine.FuncSpec{ID: 901, In: []engine.Label{probeIn.L}, InForm: engine.FormStruct, OutForm: engine.FormPos}), longer...)
+		if serr == nil {
+			w.RegisterSpec(&engine.FuncSpec{ID: 901, In: []engine.Label{probeIn.L}, InForm: engine.FormStruct, OutForm: engine.FormPos})
+			so := w.Call(sib, []argmapper.Arg{engine.Quiet()})
+			tok := -1
+			for _, ev := range so.Events {
+				if ev.Func == 901 && len(ev.Args) == 1 {
+					tok = ev.Args[0].Tok
+				}
+			}
+			if so.Panic != "" || so.Err != nil || tok != probeIn.Tok {
+				return o, got, fmt.Sprintf("a sibling function made from the caller's own (longer) default list did not receive the caller's value #%d (got #%d, err %.100s %s): a Call of the first function wrote into the caller's option slice", probeIn.Tok, tok, so.ErrS, so.Panic), nil
+			}
+		}
+	}
 	if !followUp || nilAt >= 0 || o.Panic != "" || o.Err != nil {
 		return o, got, "", nil
 	}
